@@ -19,6 +19,10 @@ it is appended to the trace log (flushed with os.write, survives os._exit), then
 Op names: lstat exists:<w> ospath_exists:<w> is_symlink:<w> stat:<w> mkdir mkstemp fchmod fdopen write flush
 fsync close open_read:<w> read close_read unlink:<w> replace   (<w> = target | temp | other); outside the modelled
 protocol: os_write / os_close (raw descriptor of mkstemp or of an os.open on a sandbox path), UNEXPECTED:<what>.
+Metadata calls are op instances too (fault points): fchmod (tracked fd), chmod:<w> lchmod:<w> utime:<w> chown:<w> lchown:<w>
+(path inside the sandbox; Path.chmod / shutil.copymode / copystat go through them), fchown / futimes-style os.utime(fd) on a
+tracked fd.  Besides the index-based plan, plan.fail_named = {(op name, occurrence): errno} fails the n-th occurrence of an op
+NAME (used when the index is not known in advance, e.g. inside a multi-call history).
 """
 from __future__ import annotations
 
@@ -35,7 +39,7 @@ STATE = None
 
 
 class Plan:
-    def __init__(self, root, target, log_fd=None, crash_at=None, fail_at=None, scheduler=None, short_at=None):
+    def __init__(self, root, target, log_fd=None, crash_at=None, fail_at=None, scheduler=None, short_at=None, fail_named=None):
         self.root = os.path.abspath(root)
         self.target = os.path.abspath(target)
         self.log_fd = log_fd
@@ -49,6 +53,8 @@ class Plan:
         self.raw_fds = set()          # descriptors from a direct os.open(.., O_WRONLY|..) on a sandbox path
         self.raw_owned = set()        # mkstemp descriptors not (yet) handed to os.fdopen: raw os.write/os.close on them are ops
         self.short_at = set(short_at or ())
+        self.fail_named = dict(fail_named or {})     # (op name, occurrence) -> errno
+        self.name_count = {}
         self.lock = threading.Lock()
         self.tls = threading.local()
         self.enabled = True
@@ -87,16 +93,18 @@ def _op(name, partial=None):
         p.k += 1
         who = getattr(p.tls, "who", None)
         p.trace.append((name, who))
+        occ = p.name_count.get(name, 0)
+        p.name_count[name] = occ + 1
         if p.log_fd is not None:
             _real["os.write"](p.log_fd, (name + "\n").encode())
     if p.crash_at == k:
         if partial:
             partial()
         _real["os._exit"](77)
-    if k in p.fail_at:
+    if k in p.fail_at or (name, occ) in p.fail_named:
         if partial:
             partial()
-        e = p.fail_at[k]
+        e = p.fail_at[k] if k in p.fail_at else p.fail_named[(name, occ)]
         raise OSError(e, os.strerror(e))
     return k
 
@@ -333,6 +341,20 @@ def install():
                     raise
         return r_osclose(fd)
 
+    def meta(name, real):
+        """chmod / lchmod / utime / chown / lchown (path or tracked fd as first argument)"""
+        def w(path, *a, **kw):
+            if _active():
+                if isinstance(path, int):
+                    if path in STATE.fd_path or path in STATE.raw_fds:
+                        _op("f" + name)
+                else:
+                    role = _role(STATE, path)
+                    if role is not None:
+                        _op(f"{name}:{role}")
+            return real(path, *a, **kw)
+        return w
+
     def unexpected(name, real):
         def w(*a, **kw):
             if _active() and any(isinstance(x, (str, os.PathLike)) and _inside(STATE, x) for x in a):
@@ -350,6 +372,17 @@ def install():
     io.open = w_open
     os.unlink, os.replace = w_unlink, w_replace
     os.open, os.write, os.close = w_osopen, w_oswrite, w_osclose
+    for nm in ("chmod", "lchmod", "utime", "chown", "lchown"):
+        if hasattr(os, nm):
+            setattr(os, nm, meta(nm, getattr(os, nm)))
+    if hasattr(os, "fchown"):
+        r_fchown = os.fchown
+
+        def w_fchown(fd, *a, **kw):
+            if _active() and (fd in STATE.fd_path or fd in STATE.raw_fds):
+                _op("fchown")
+            return r_fchown(fd, *a, **kw)
+        os.fchown = w_fchown
     os.rename = unexpected("rename", os.rename)
     os.remove = unexpected("remove", os.remove)
     os.truncate = unexpected("truncate", os.truncate)
